@@ -40,8 +40,9 @@ package http2
 //
 // processSettings: an ACK only decrements the count of unacknowledged SETTINGS of the server and is
 // a PROTOCOL connection error when no SETTINGS was outstanding; it never triggers an acknowledgement.
-// A non-ACK frame that is accepted (no error) sets needToSendSettingsAck and runs the frame-write
-// scheduler exactly once with the flag set; a frame with more than 100 settings is a PROTOCOL
+// A non-ACK frame that is accepted (no error) adds exactly one to the count of pending
+// acknowledgements (needToSendSettingsAck; a boolean before fix 018a9aa, finding F17) and runs the
+// frame-write scheduler exactly once with that count; a frame with more than 100 settings is a PROTOCOL
 // connection error and requests no acknowledgement; the unacknowledged count is untouched.
 //
 //@ func (*SettingsFrame).HasDuplicates(f) (r)
@@ -71,7 +72,7 @@ package http2
 //@ func (*serverConn).processSettings(sc, f) (err)
 //@   requires sc != nil && f != nil && f.valid && sc.hpackEncoder != nil
 //@   ghost sched += 1 at call scheduleFrameWrite
-//@   assert at call scheduleFrameWrite: sc.needToSendSettingsAck && !f.IsAck() && f.NumSettings() <= 100
+//@   assert at call scheduleFrameWrite: sc.needToSendSettingsAck == old(sc.needToSendSettingsAck) + 1 && !f.IsAck() && f.NumSettings() <= 100
 //@   assert at call ForeachSetting: !f.IsAck() && f.NumSettings() <= 100
 //@   ensures  f.IsAck() ==> sc.unackedSettings == old(sc.unackedSettings) - 1 && ghost(sched) == 0
 //@   ensures  f.IsAck() ==> sc.needToSendSettingsAck == old(sc.needToSendSettingsAck)
